@@ -93,6 +93,47 @@ def gen(tier, rng, funcs):
             add(lambda lv: "ffub %s - -" % kstr(rand_key(rng)))
             add(lambda lv: "getfiles %s - -" % kstr(rand_key(rng)))
             add(lambda lv: "ovl %d %s %s" % (rng.randrange(0, 7), rng.choice(UK + ["-"]), rng.choice(UK + ["-"])))
+        if "score" in funcs:
+            # size scores: level budgets are 10 MiB x 10^(level-1); level 0 counts files
+            def score(lv):
+                return "score - - -"
+            levels, toks = rand_version(rng)
+            # put the total size of one or two levels next to their budget
+            import re as _re
+            for _lv in rng.sample([1, 2, 3, 4], rng.choice([1, 2])):
+                fl = [t for t in toks if t.startswith("F%d:" % _lv)]
+                if fl:
+                    budget = 10485760 * 10 ** (_lv - 1)
+                    target = budget + rng.choice([-2, -1, 0, 1, 2, budget // 3, -budget // 3, budget])
+                    each = max(1, target // len(fl))
+                    for i, t in enumerate(toks):
+                        if t in fl:
+                            p_ = t.split(":")
+                            p_[2] = str(each if t != fl[-1] else max(1, target - each * (len(fl) - 1)))
+                            toks[i] = ":".join(p_)
+            # and sometimes many level-0 files
+            if rng.random() < 0.5:
+                base = 900
+                for j in range(rng.randrange(0, 9)):
+                    toks.append("F0:%d:%d:%s:%s" % (base + j, 10, kstr(("x61", 5, 1)), kstr(("x62", 3, 1))))
+            cases.append("v%d %d:1:1 score - - - %s" % (n, 1000, " ".join(toks)))
+            n += 1
+        if "samples" in funcs:
+            def samples(lv):
+                # prefer a user key that lies in the range of at least two files
+                cands = []
+                for u in UK:
+                    ub = bytes.fromhex(u[1:])
+                    cnt = sum(1 for fl in lv for (_n, _s, a, b) in fl
+                              if bytes.fromhex(a[0][1:]) <= ub <= bytes.fromhex(b[0][1:]))
+                    if cnt >= 2:
+                        cands.append(u)
+                hot = (rng.choice(cands), rng.randrange(1, 10), 1) if cands and rng.random() < 0.9 else rand_key(rng)
+                ks = []
+                for _i in range(rng.choice([99, 100, 101, 130, 230])):
+                    ks.append(hot if rng.random() < 0.9 else rand_key(rng))
+                return "samples %s - -" % ",".join(kstr(k) for k in ks)
+            add(samples)
         if "oci" in funcs:
             def oci(lv):
                 a, b = rand_key(rng), rand_key(rng)
